@@ -172,11 +172,18 @@ func RunC15(env *sim.Env) {
 		runC15Concurrent(env)
 		return
 	}
+	if t.Choose(10) == 9 {
+		// one run in ten: a layout-heavy site rendered in one execution, judged by a model (c15site.go)
+		runC15Site(env)
+		return
+	}
 	c := &c15{env: env, t: t}
 	// one run in six uses a 110-character name for the directory "a": referrer directory plus name
 	// exceed 128 (and, two levels deep, 256) bytes
 	c15Targets, c15RefDirs := c15Targets, c15RefDirs
+	longNames := false
 	if t.Choose(6) == 5 {
+		longNames = true
 		long := "a" + strings.Repeat("x", 109)
 		lp := func(ps []string) []string {
 			out := make([]string, len(ps))
@@ -260,12 +267,33 @@ func RunC15(env *sim.Env) {
 	nOps := t.Range(3, 10)
 	var hist []string
 	nRef := 0
+	// one run in eight begins with two relative references whose (directory, name) pairs are different
+	// but concatenate to the same string ("/" + "ab/t.jet" and "/a" + "b/t.jet"): whatever is remembered
+	// about a resolution must be remembered for the pair
+	type forcedOp struct{ target, refDir, name string }
+	var forced []forcedOp
+	forcedKind := ""
+	if t.Choose(8) == 7 && !longNames {
+		pairs := [][]forcedOp{
+			{{"/ab/t.jet", "/", "ab/t.jet"}, {"/a/b/t.jet", "/a", "b/t.jet"}},
+			{{"/a/bc/t.jet", "/a", "bc/t.jet"}, {"/a/b/c/t.jet", "/a/b", "c/t.jet"}},
+		}
+		forced = pairs[t.Choose(2)]
+		if t.Bool(1, 2) {
+			forced = []forcedOp{forced[1], forced[0]}
+		}
+		forcedKind = []string{"include", "extends", "import", "include-computed"}[t.Choose(4)]
+		env.Stat("probe:two_references_whose_directory_and_name_concatenate_alike", 1)
+	}
 	for i := 0; i < nOps; i++ {
 		kind := kinds[t.Choose(len(kinds))]
 		target := c15Targets[t.Choose(len(c15Targets))]
 		refDir := c15RefDirs[t.Choose(len(c15RefDirs))]
 		relative := kind == "extends" || kind == "import" || kind == "include" || kind == "include-computed"
 		name := spell(t, target, refDir, relative)
+		if i < len(forced) {
+			kind, target, refDir, name, relative = forcedKind, forced[i].target, forced[i].refDir, forced[i].name, true
+		}
 		nRef++
 		refPath := Normalize(refDir + fmt.Sprintf("/r%d.jet", nRef))
 		var expected string
